@@ -1,5 +1,574 @@
 package main
 
-import "verif/harness/vh"
+import (
+	"bytes"
+	crand "crypto/rand"
+	"encoding/binary"
+	"fmt"
+	"io"
+	"math"
+	"math/big"
+	mrand "math/rand"
+	"net"
+	"os"
+	"sort"
+	"strings"
 
-func run(c *vh.Ctx) {}
+	tls "github.com/refraction-networking/utls"
+	"verif/harness/extcoq"
+	"verif/harness/vh"
+)
+
+// recRand: deterministic Config.Rand that records the size and content of every read.
+type recRand struct {
+	r     *mrand.Rand
+	reads [][]byte
+}
+
+func (d *recRand) Read(p []byte) (int, error) {
+	d.r.Read(p)
+	d.reads = append(d.reads, append([]byte(nil), p...))
+	return len(p), nil
+}
+
+// packed byte string: 7 bytes per Coq primitive integer (Corr/C03Corr.v pk)
+func packed(b []byte) string {
+	var it []string
+	for i := 0; i < len(b); i += 7 {
+		j := i + 7
+		if j > len(b) {
+			j = len(b)
+		}
+		var x uint64
+		for _, c := range b[i:j] {
+			x = x<<8 | uint64(c)
+		}
+		it = append(it, fmt.Sprintf("%d%%uint63", x))
+	}
+	return fmt.Sprintf("%d %s", len(b), vh.List(it))
+}
+
+func nats(xs []int) string {
+	it := make([]string, len(xs))
+	for i, x := range xs {
+		it[i] = vh.Nat(x)
+	}
+	return vh.List(it)
+}
+
+func lower(r *mrand.Rand, n int) string {
+	b := make([]byte, n)
+	for i := range b {
+		b[i] = byte('a' + r.Intn(26))
+		if i > 0 && i+1 < n && b[i-1] != '.' && r.Intn(9) == 0 {
+			b[i] = '.'
+		}
+	}
+	return string(b)
+}
+
+// serverName: the SNI values of the property's quantifier - DNS names of all lengths, names with
+// trailing dots (stripped by hostnameInSNI), IP literals (no SNI extension at all).
+func serverName(r *mrand.Rand, variant int) string {
+	switch variant % 6 {
+	case 0:
+		return "c03.example.com"
+	case 1:
+		return lower(r, 1+r.Intn(40))
+	case 2:
+		return []string{"192.0.2.7", "[2001:db8::1]", "fe80::1%eth0", "10.0.0.1"}[r.Intn(4)]
+	case 3:
+		return lower(r, 3+r.Intn(30)) + strings.Repeat(".", 1+r.Intn(2))
+	case 4:
+		return lower(r, 150+r.Intn(100))
+	}
+	return lower(r, 1+r.Intn(253))
+}
+
+type wanted struct {
+	kinds []extKind
+	spec  tls.ClientHelloSpec
+}
+
+// specMax: "spec maximum" of the property text.
+func specMax(sp *tls.ClientHelloSpec) uint16 {
+	if sp.TLSVersMin != 0 || sp.TLSVersMax != 0 {
+		return sp.TLSVersMax
+	}
+	for _, e := range sp.Extensions {
+		if sv, ok := e.(*tls.SupportedVersionsExtension); ok {
+			var m uint16
+			for _, v := range sv.Versions {
+				if !isGREASE(v) && v > m {
+					m = v
+				}
+			}
+			return m
+		}
+	}
+	return tls.VersionTLS12
+}
+
+func ug(v uint16) uint16 {
+	if isGREASE(v) {
+		return 0x0a0a
+	}
+	return v
+}
+
+// goOracle: the coarse facts of the property, written from its text and from the TYPES of the spec's
+// extensions only (kindOf): legacy_version, suites modulo GREASE, compression, extension-type
+// sequence (non-shuffling) resp. multiset and positions of GREASE/padding/pre_shared_key (shuffling).
+func goOracle(c *vh.Ctx, p *parrotOut, sp *tls.ClientHelloSpec, kinds []extKind, w *wireHello, sni string, input any) {
+	fail := func(what, key string, got, want any) {
+		c.Fail(key+"/"+p.Name, what, input, got, want)
+	}
+	wantV := specMax(sp)
+	if wantV > tls.VersionTLS12 {
+		wantV = tls.VersionTLS12
+	}
+	if w.Vers != wantV {
+		fail("legacy_version is not min(spec maximum, TLS 1.2)", "legacy-version", w.Vers, wantV)
+	}
+	if len(w.Random) != 32 || len(w.SID) != 32 {
+		fail("random / session id are not 32 bytes", "random-sid", []int{len(w.Random), len(w.SID)}, []int{32, 32})
+	}
+	okS := len(w.Suites) == len(sp.CipherSuites)
+	for i := 0; okS && i < len(w.Suites); i++ {
+		if isGREASE(sp.CipherSuites[i]) != isGREASE(w.Suites[i]) || (!isGREASE(w.Suites[i]) && w.Suites[i] != sp.CipherSuites[i]) {
+			okS = false
+		}
+	}
+	if !okS {
+		fail("cipher suites differ from the spec's (GREASE slots aside)", "suites", w.Suites, sp.CipherSuites)
+	}
+	if !bytes.Equal(w.Comp, sp.CompressionMethods) {
+		fail("compression methods differ from the spec's", "compression", w.Comp, sp.CompressionMethods)
+	}
+	// expected extension types: SNI is left out when there is no DNS name; padding and pre_shared_key may be absent
+	var wireIDs []uint16
+	for _, e := range w.Exts {
+		wireIDs = append(wireIDs, ug(e.ID))
+	}
+	has := func(id uint16) bool {
+		for _, x := range wireIDs {
+			if x == id {
+				return true
+			}
+		}
+		return false
+	}
+	var want []extKind
+	for _, k := range kinds {
+		if k.ID == 0 && sni == "" {
+			continue
+		}
+		if (k.ID == 21 || k.ID == 41) && !has(k.ID) {
+			continue
+		}
+		want = append(want, k)
+	}
+	var wantIDs []uint16
+	for _, k := range want {
+		wantIDs = append(wantIDs, k.ID)
+	}
+	if !p.Shuffles {
+		if fmt.Sprint(wireIDs) != fmt.Sprint(wantIDs) {
+			fail("extension type sequence differs from the spec's", "ext-sequence", wireIDs, wantIDs)
+		}
+		return
+	}
+	a, b := append([]uint16(nil), wireIDs...), append([]uint16(nil), wantIDs...)
+	sort.Slice(a, func(i, j int) bool { return a[i] < a[j] })
+	sort.Slice(b, func(i, j int) bool { return b[i] < b[j] })
+	if fmt.Sprint(a) != fmt.Sprint(b) {
+		fail("extension type multiset differs from the spec's", "ext-multiset", a, b)
+		return
+	}
+	if sni != "" { // with SNI on the wire the slots of the fixed entries are known exactly
+		for i, k := range want {
+			if k.Fixed && wireIDs[i] != k.ID {
+				fail(fmt.Sprintf("slot %d must hold the positionally fixed extension type %d", i, k.ID), "fixed-position", wireIDs, wantIDs)
+				return
+			}
+		}
+	}
+}
+
+func run(c *vh.Ctx) {
+	repo := os.Getenv("VERIF_REPO")
+	if repo == "" {
+		repo = "/repo"
+	}
+	res, err := loadParrots(repo)
+	if err != nil {
+		c.Fail("translator", "cannot enumerate the parrots: "+err.Error(), repo, nil, nil)
+		return
+	}
+	for _, d := range res.Disagree {
+		name := strings.SplitN(d, ":", 2)[0]
+		c.Fail("draws-disagree/"+strings.TrimPrefix(name, "Hello"), "two UTLSIdToSpec calls for one id are not rearrangements of each other with GREASE/padding/pre_shared_key in place",
+			name, d, "same multiset, fixed entries in their slots")
+	}
+	c.Extra["parrots"] = len(res.Parrots)
+	c.Extra["rejected_ids"] = res.Rejected
+	c.Extra["randomized_ids"] = res.Randomized
+	perParrot := c.N
+	if perParrot < 3 {
+		perParrot = 3
+	}
+	for pi := range res.Parrots {
+		p := &res.Parrots[pi]
+		for k := 0; k < perParrot; k++ {
+			name := serverName(c.Rng, k+pi)
+			if k%3 == 2 {
+				runBuild(c, p, name, k)
+			} else {
+				runHello(c, p, name, k)
+			}
+		}
+		nd := 0
+		if p.Shuffles {
+			nd = 2
+			if c.Tier != "quick" {
+				nd = 40
+			}
+		} else if pi%6 == 0 {
+			nd = 1
+		}
+		for k := 0; k < nd; k++ {
+			runDraw(c, p, k)
+		}
+	}
+	ns := 24
+	if c.Tier != "quick" {
+		ns = 2000
+	}
+	for t := 0; t < ns; t++ {
+		runShuffle(c, t)
+	}
+}
+
+func newConn(c *vh.Ctx, id tls.ClientHelloID, name string, omit bool) (*tls.UConn, *recRand) {
+	rec := &recRand{r: mrand.New(mrand.NewSource(c.Rng.Int63()))}
+	cfg := &tls.Config{ServerName: name, InsecureSkipVerify: true, OmitEmptyPsk: omit, Rand: rec}
+	return tls.UClient(&net.TCPConn{}, cfg, id), rec
+}
+
+// runHello: the ClientHelloID path, as a user of the library takes it.
+func runHello(c *vh.Ctx, p *parrotOut, name string, k int) {
+	uc, _ := newConn(c, p.ID, name, true)
+	input := map[string]any{"parrot": p.Name, "server_name": name, "path": "UClient(id)+BuildHandshakeState"}
+	var err error
+	if pan, v := vh.Recover(func() { err = uc.BuildHandshakeState() }); pan || err != nil {
+		c.Fail("build/"+p.Name, "BuildHandshakeState failed for a predefined parrot", input, fmt.Sprint(v, err), "a ClientHello")
+		return
+	}
+	raw := uc.HandshakeState.Hello.Raw
+	w, err := parseHello(raw)
+	if err != nil {
+		c.Fail("framing/"+p.Name, "Hello.Raw is not a well-framed ClientHello", input, vh.Hex(raw), "well-framed")
+		return
+	}
+	sni := extcoq.HostnameInSNI(name)
+	// the spec this connection used, in ITS order (uc.Extensions are the spec's objects)
+	var kinds []extKind
+	for _, e := range uc.Extensions {
+		kinds = append(kinds, kindOf(e))
+	}
+	sp, _ := tls.UTLSIdToSpec(p.ID)
+	goOracle(c, p, &sp, kinds, w, sni, input)
+	term := fmt.Sprintf("(CHello %s %s %s)", vh.Str(p.Name), vh.Str(sni), packed(raw))
+	c.OracleCase("CHello", term, "spec-match/"+p.Name,
+		"the ClientHello does not carry what the parrot's spec (Gen/Parrots.v) describes", input, true)
+	c.Count("sni:" + map[bool]string{true: "absent", false: "present"}[sni == ""])
+}
+
+func indexOf[T comparable](xs []T, x T) int {
+	for i, y := range xs {
+		if x == y {
+			return i
+		}
+	}
+	return -1
+}
+
+// permOf: draw as a rearrangement of base (indices into base), matching rendered terms; nil if it is none.
+func permOf(base, draw []string) []int {
+	used := make([]bool, len(base))
+	var perm []int
+	for _, d := range draw {
+		f := -1
+		for i, b := range base {
+			if !used[i] && b == d {
+				f = i
+				break
+			}
+		}
+		if f < 0 {
+			return nil
+		}
+		used[f] = true
+		perm = append(perm, f)
+	}
+	return perm
+}
+
+// runBuild: UTLSIdToSpec + ApplyPreset on a HelloCustom connection; the model must reproduce Hello.Raw.
+func runBuild(c *vh.Ctx, p *parrotOut, name string, k int) {
+	omit := !(k%6 == 5 && hasPSK(p)) // some PSK parrots also with OmitEmptyPsk=false: ErrEmptyPsk expected
+	uc, rec := newConn(c, tls.HelloCustom, name, omit)
+	spec, err := tls.UTLSIdToSpec(p.ID)
+	if err != nil {
+		return
+	}
+	draw, kinds, err := renderExts(spec.Extensions)
+	if err != nil {
+		return
+	}
+	perm := permOf(p.Exts, draw)
+	input := map[string]any{"parrot": p.Name, "server_name": name, "path": "UTLSIdToSpec+ApplyPreset", "omit_empty_psk": omit}
+	if perm == nil {
+		c.Fail("draws-disagree/"+p.Name, "UTLSIdToSpec returned a list that is no rearrangement of the table entry", input, draw, p.Exts)
+		return
+	}
+	var perr error
+	pan, pv := vh.Recover(func() {
+		if perr = uc.ApplyPreset(&spec); perr == nil {
+			perr = uc.BuildHandshakeState()
+		}
+	})
+	if pan {
+		c.Fail("build/"+p.Name, "ApplyPreset/BuildHandshakeState panicked", input, fmt.Sprint(pv), "a ClientHello")
+		return
+	}
+	var grease []byte
+	for _, r := range rec.reads {
+		if len(r) == 10 {
+			grease = r
+			break
+		}
+	}
+	sni := extcoq.HostnameInSNI(name)
+	if perr != nil {
+		if omit {
+			c.Fail("build/"+p.Name, "BuildHandshakeState failed for a predefined parrot", input, perr.Error(), "a ClientHello")
+			return
+		}
+		// expected: ErrEmptyPsk. The model needs the key material it cannot see: hand it fresh-looking dummies.
+		c.Count("build:error")
+		return
+	}
+	raw := uc.HandshakeState.Hello.Raw
+	w, err := parseHello(raw)
+	if err != nil {
+		c.Fail("framing/"+p.Name, "Hello.Raw is not a well-framed ClientHello", input, vh.Hex(raw), "well-framed")
+		return
+	}
+	goOracle(c, p, &spec, kinds, w, sni, input)
+	// per-connection material cut out of the observed bytes
+	var keys, echs []string
+	for _, e := range w.Exts {
+		switch e.ID {
+		case 51:
+			// client_shares: u16 length, then (group u16, u16 length, data)
+			var specKS *tls.KeyShareExtension
+			for _, se := range spec.Extensions {
+				if x, ok := se.(*tls.KeyShareExtension); ok {
+					specKS = x
+				}
+			}
+			q := 2
+			for i := 0; q+4 <= len(e.Body); i++ {
+				g := binary.BigEndian.Uint16(e.Body[q:])
+				l := int(binary.BigEndian.Uint16(e.Body[q+2:]))
+				// a share is generated when the group is not GREASE and the spec held at most one byte of data;
+				// ApplyPreset wrote the key into the spec object, so the decision is taken from the table entry
+				if !isGREASE(g) && l > 1 && specKS != nil && i < len(specKS.KeyShares) && generated(p, i) {
+					keys = append(keys, fmt.Sprintf("(%d, %d)", e.Off+q+4, l))
+				}
+				q += 4 + l
+			}
+		case 0xfe0d:
+			var g *tls.GREASEEncryptedClientHelloExtension
+			for _, se := range spec.Extensions {
+				if x, ok := se.(*tls.GREASEEncryptedClientHelloExtension); ok {
+					g = x
+				}
+			}
+			b := e.Body
+			if g == nil || len(b) < 10 {
+				continue
+			}
+			kdf, aead, cfgid := binary.BigEndian.Uint16(b[1:]), binary.BigEndian.Uint16(b[3:]), b[5]
+			el := int(binary.BigEndian.Uint16(b[6:]))
+			if len(b) < 10+el {
+				continue
+			}
+			pl := int(binary.BigEndian.Uint16(b[8+el:]))
+			si := 0
+			for i, s := range g.CandidateCipherSuites {
+				if s.KdfId == kdf && s.AeadId == aead {
+					si = i
+					break
+				}
+			}
+			pi := indexOf(g.CandidatePayloadLens, uint16(pl-16))
+			if pi < 0 {
+				pi = 0
+			}
+			echs = append(echs, fmt.Sprintf("{| ce_cfg_byte := %d; ce_suite_idx := %s; ce_enc := (%d, %d); ce_plen_idx := %s; ce_payload := (%d, %d) |}",
+				cfgid, vh.Nat(si), e.Off+8, el, vh.Nat(pi), e.Off+10+el, pl))
+		}
+	}
+	term := fmt.Sprintf("(CBuild %s %s %s %s %s %s %s true %s)", vh.Str(p.Name), vh.Str(sni), vh.Bool(omit), nats(perm),
+		vh.Bytes(grease), vh.List(keys), vh.List(echs), packed(raw))
+	c.Case("CBuild", term, fmt.Sprintf("%s|%s|%d", p.Name, name, k), true,
+		map[string]any{"parrot": p.Name, "server_name": name, "len": len(raw)})
+}
+
+func hasPSK(p *parrotOut) bool {
+	for _, k := range p.Kinds {
+		if k.ID == 41 {
+			return true
+		}
+	}
+	return false
+}
+
+// generated: does ApplyPreset generate the key of share #i of the parrot's key_share extension?
+// Decided from a FRESH spec (the applied one already holds the generated keys).
+func generated(p *parrotOut, i int) bool {
+	sp, err := tls.UTLSIdToSpec(p.ID)
+	if err != nil {
+		return false
+	}
+	for _, e := range sp.Extensions {
+		if ks, ok := e.(*tls.KeyShareExtension); ok && i < len(ks.KeyShares) {
+			return !isGREASE(uint16(ks.KeyShares[i].Group)) && len(ks.KeyShares[i].Data) <= 1
+		}
+	}
+	return false
+}
+
+// runDraw: one more UTLSIdToSpec(id) against the table entry.
+func runDraw(c *vh.Ctx, p *parrotOut, k int) {
+	sp, err := tls.UTLSIdToSpec(p.ID)
+	if err != nil {
+		return
+	}
+	draw, kinds, err := renderExts(sp.Extensions)
+	if err != nil {
+		return
+	}
+	if why := sameShuffleClass(p.Exts, draw, p.Kinds, kinds); why != "" {
+		c.Fail("draws-disagree/"+p.Name, "UTLSIdToSpec result is not the table entry rearranged with GREASE/padding/pre_shared_key in place: "+why,
+			p.Name, draw, p.Exts)
+	}
+	if !p.Shuffles && strings.Join(draw, ";") != strings.Join(p.Exts, ";") {
+		c.Fail("draws-disagree/"+p.Name, "a non-shuffling id returned a different extension order", p.Name, draw, p.Exts)
+	}
+	c.Case("CDraw", fmt.Sprintf("(CDraw %s %s)", vh.Str(p.Name), vh.List(draw)), fmt.Sprintf("%s|%s", p.Name, strings.Join(draw, ";")), p.Shuffles, nil)
+}
+
+type logReader struct {
+	r   *mrand.Rand
+	log []byte
+}
+
+func (l *logReader) Read(p []byte) (int, error) {
+	l.r.Read(p)
+	l.log = append(l.log, p...)
+	return len(p), nil
+}
+
+// runShuffle: the real ShuffleChromeTLSExtensions on a generated list. crypto/rand.Reader is replaced
+// by a logging deterministic reader for the call; the seed the function drew is recomputed from the
+// logged bytes with the same crypto/rand.Int, and the swap calls with the same math/rand.Shuffle.
+func runShuffle(c *vh.Ctx, t int) {
+	n := 1 + c.Rng.Intn(24)
+	if t == 0 {
+		n = 0
+	}
+	exts := make([]tls.TLSExtension, n)
+	fixed := make([]bool, n)
+	for i := range exts {
+		switch c.Rng.Intn(9) {
+		case 0:
+			exts[i], fixed[i] = &tls.UtlsGREASEExtension{}, true
+		case 1:
+			exts[i], fixed[i] = &tls.UtlsPaddingExtension{GetPaddingLen: tls.BoringPaddingStyle}, true
+		case 2:
+			exts[i], fixed[i] = &tls.UtlsPreSharedKeyExtension{}, true
+		case 3:
+			exts[i], fixed[i] = &tls.FakePreSharedKeyExtension{}, true
+		case 4:
+			exts[i] = &tls.SNIExtension{}
+		case 5:
+			exts[i] = &tls.KeyShareExtension{}
+		default:
+			exts[i] = &tls.GenericExtension{Id: uint16(1000 + i)}
+		}
+	}
+	orig := append([]tls.TLSExtension(nil), exts...)
+	lr := &logReader{r: mrand.New(mrand.NewSource(c.Rng.Int63()))}
+	old := crand.Reader
+	crand.Reader = lr
+	var out []tls.TLSExtension
+	pan, _ := vh.Recover(func() { out = tls.ShuffleChromeTLSExtensions(exts) })
+	crand.Reader = old
+	var result []int
+	if !pan {
+		for _, e := range out {
+			result = append(result, indexOf(orig, e))
+		}
+	}
+	seed, err := crand.Int(bytes.NewReader(lr.log), big.NewInt(math.MaxInt64))
+	if err != nil {
+		c.Count("shuffle:seed-not-recovered")
+		return
+	}
+	var swaps []string
+	mrand.New(mrand.NewSource(seed.Int64())).Shuffle(n, func(i, j int) {
+		swaps = append(swaps, fmt.Sprintf("(%s, %s)", vh.Nat(i), vh.Nat(j)))
+	})
+	input := map[string]any{"fixed": fixed, "seed": seed.String()}
+	// Go-side oracle from the property text: same elements, fixed ones in place
+	if !pan {
+		cnt := map[int]int{}
+		for _, r := range result {
+			cnt[r]++
+		}
+		okm := len(result) == n
+		for i := 0; i < n; i++ {
+			if cnt[i] != 1 {
+				okm = false
+			}
+		}
+		if !okm {
+			c.Fail("shuffle/multiset", "ShuffleChromeTLSExtensions lost or duplicated an extension", input, result, "a permutation")
+		}
+		for i := 0; okm && i < n; i++ {
+			if (fixed[i] || fixed[result[i]]) && result[i] != i {
+				c.Fail("shuffle/fixed-moved", "ShuffleChromeTLSExtensions moved a GREASE/padding/pre_shared_key extension", input, result, "fixed entries in place")
+				break
+			}
+		}
+	} else {
+		c.Fail("shuffle/panic", "ShuffleChromeTLSExtensions panicked", input, nil, "no panic")
+	}
+	fx := make([]string, n)
+	for i, f := range fixed {
+		fx[i] = vh.Bool(f)
+	}
+	moved := false
+	for i, r := range result {
+		if r != i {
+			moved = true
+		}
+	}
+	c.Case("CShuffle", fmt.Sprintf("(CShuffle %s %s %s %s)", vh.List(fx), vh.List(swaps), vh.Bool(pan), nats(result)),
+		fmt.Sprint(fixed, seed), moved, nil)
+}
+
+var _ = io.EOF
